@@ -15,7 +15,7 @@ TEXT = {
             "boundary oracle: exhaustive arg-min reference beside the real predict", "§6 C03"),
     "C04": ("Resubstitution is observed on tie-free sets under every symmetric non-negative zero-self metric and on arbitrary (tied, duplicated) sets for the KNN model.",
             "boundary assertion on recorded fit/predict outputs with checked preconditions", "§6 C04"),
-    "C05": ("The real Heap is driven with generated and bounded-exhaustive operation histories; every return value, emptiness/fullness report and public colour is judged against a sequential dict model, and each heap is drained to show exactly-once delivery.",
+    "C05": ("The real Heap is driven with generated and bounded-exhaustive operation histories; every return value and emptiness/fullness report is judged against a sequential dict model (histories include re-insertion of returned elements, numpy-scalar costs and a policy switch on an emptied heap), and each heap is drained to show exactly-once delivery.",
             "history + executable sequential model (priority-queue linearisation is trivial single-threaded)", "§6 C05"),
     "C06": ("Each registry function is evaluated on vectors of its domain (8 lengths, plain/zero/integer/large classes, contiguous/strided/read-only layouts) beside an independent 60-digit Decimal scalar closed form; whitelist and registry are compared through every model constructor.",
             "differential oracle: Decimal closed-form table vs the real function; registry/option set comparison", "§6 C06"),
@@ -37,8 +37,8 @@ TEXT = {
             "boundary oracle: exhaustive reference with existential tie handling", "§6 C14"),
     "C15": ("C01's oracle over labeled+unlabeled nodes with the implementation's prototypes restricted to labeled ones; U=0 runs are compared with SupervisedOPF.",
             "differential oracle vs reference model and vs the supervised implementation", "§6 C15"),
-    "C16": ("The event log of candidate k, criterion value and final build calls (source-free hooks) is checked against 'smallest arg-best' and 'final model uses best_k'.",
-            "offline checker over a recorded event log", "§6 C16"),
+    "C16": ("The recorded criterion values per candidate k (source-free hooks; any order or pattern of internal calls) are checked against 'smallest arg-best among all candidates', and the state the fit leaves (densities, predecessor links, arc lists) against 'the final model is built with best_k'.",
+            "offline checker over a recorded event log + state oracle on the fitted model", "§6 C16"),
     "C17": ("Multiset conservation over learn, best-model retention, exact relevance marking (ancestor closure of exhaustive conquerors) and prune's sub-multiset chain are checked on recorded histories.",
             "conservation / history oracles over recorded events", "§6 C17"),
     "C18": ("Rows carry unique ids so every output row of split/merge/convert/load/parse is attributable; outputs must partition/round-trip the inputs exactly.",
